@@ -1695,7 +1695,7 @@ func runBatch(r *hx.Run, cs []cfg, par int) {
 			ran[i] = true
 			if _, _, _, end := judge(res[i].ev); end != "" {
 				failedCases.Add(1)
-				if end == "blocked-forever" || time.Since(t0) > 3*time.Second {
+				if end == "blocked-forever" || time.Since(t0) > 2*time.Second {
 					// a call that never returned, or a failing case that waited long for progress that did not come
 					hungCases.Add(1)
 				}
